@@ -551,7 +551,7 @@ def run(ctx):
     built = ctx.build("C20", deps=["Model/Strl.v"])
     mark("coq_build")
     quick = ctx.tier == "quick"
-    n_cases = 500 if quick else 5000
+    n_cases = 360 if quick else 4000
     n_sat = 4 if quick else 8
 
     try:
